@@ -32,6 +32,10 @@ FIXES = [
     ("C02", "fix: break/continue inside a list item", "(⟨X⟩) / (⟨x⟩): break/continue emitted inside def list_item nested in a for loop -> SyntaxError (132 programs)"),
     ("C18", "fix: parameter names keep only ASCII letters", "[^A-z_] lets [ \\ ] ^ ` through: @f:a\\[b\\]|1; emitted VAR_a[b] = pop(...), @f:^|1; emitted unparsable code (1800 payload cases)"),
     ("C19", "fix: errors during the implicit output are reported", "online mode: an error in the implicit-output phase escaped execute_vyxal (λ`x`; with flag j -> TypeError propagated, error record empty; 1228 of 34944 cases)"),
+    ("C12", "fix: break and continue pop the loop's context value", "3(X)n / 3(nx)n: break/continue skipped ctx.context_values.pop(); n afterwards read the stale loop value"),
+    ("C12", "fix: an early return (X) from a lambda or function", "λX;† left entries on ctx.stacks and ctx.function_stack; @f|1X2;@f; left ctx.stacks entry"),
+    ("C12", "fix: printing a lazy list unregisters", "3ɾ, : LazyList.output appended to ctx.stacks and never popped (every printed lazy list leaked one entry)"),
+    ("C01", "fix: continue (x) in a while loop re-evaluates", "x in a while loop jumped back to the test of the stale condition value: the condition code never ran again (2→c{←c|←c‹→c x} did not terminate)"),
     ("C02", "fix: the template of ¨…", "the template of ¨… had a positional argument after a keyword argument: every program containing ¨… failed to compile"),
 ]
 
